@@ -293,6 +293,10 @@ func (c *ShardedMap) Restore(r io.Reader) (int, error) {
 			return n, err
 		}
 
+		if e.E != 0 {
+			c.t.notifyExpirationSet()
+		}
+
 		h := xxhash.Sum64(e.K)
 		b := &c.hashedBuckets[h%shards]
 
